@@ -7,6 +7,7 @@ zck_validate_lead calls, zck_read_lead and zck_read_header; (c) every single-byt
 pinning.  Oracle: a three-line acceptance model; where the API refuses an *ordering* the model makes no claim and
 follows the library's answer.
 """
+PROMOTE = True   # quick runs the former thorough bound (seconds); thorough goes deeper where a deeper bound is defined (ctx.deep)
 import itertools
 import core, zckref, universe
 from universe import Cfg
